@@ -468,6 +468,23 @@ def fold_f64(v, depth=0):
     return None
 
 
+def for_each_over(F, g, blocks, word, callees):
+    """`<something derived from `word`>.iter()...for_each(|x| callee(.., x))`: the standard library runs the closure once per
+    element; the closure (found through the value handed to for_each) calls one of `callees`"""
+    from rules.psc import sym
+    for b, t in g.calls(blocks):
+        if not callee_name(t).endswith(('::for_each', '::try_for_each')) or len(t['args']) != 2:
+            continue
+        if word not in str(sym(g, t['args'][0])):
+            continue
+        d = g.def_rvalue(t['args'][1])
+        cp = d[3].get('closure') if d and d[0] == 'assign' and d[3]['k'] == 'aggregate' else None
+        cf = F.fns.get(cp) if cp else None
+        if cf is not None and any(callee_name(t2) in callees for b2, t2 in cf.calls()):
+            return True
+    return False
+
+
 class LocalFlow:
     """flow-insensitive derivation graph over the locals of one body: `a` derives from `b` when some statement or call computes a
     from b (moves, borrows, casts, aggregates, call results from their arguments, the target of a `&mut` argument from the other
